@@ -158,20 +158,44 @@ def _exc(e):
     return type(e).__name__ + ": " + str(e)[:120]
 
 
+def _keeper(rec):
+    """independence oracle (mc/alias.py): TLV / LV objects and pack() results handed out for earlier cases
+    are re-observed after the following cases (shared templates, flyweights, shared output buffers)"""
+    k = getattr(rec, "_keeper", None)
+    if k is None:
+        from mc.alias import Keeper
+        k = rec._keeper = Keeper(rec, "C08", depth=6, live=True)
+    return k
+
+
+def _obs_tlv(o):
+    return (int(o.tlv_type), bytes(o.value), int(o.packet_len))
+
+
+def _obs_lv(o):
+    return (bytes(o.value), int(o.packet_len))
+
+
 def check_generic_tlv(rec: Rec, t: int, v: bytes, nontrivial=True):
     L = lib()
     case = {"kind": "tlv", "t": t, "v": hx(v)}
     ref = R.tlv(t, v)
     rec.case(nontrivial, ops=8)
+    keep = _keeper(rec)
 
     def bad(kind, observed, expected):
         rec.violation("C08." + kind, case, observed, expected, repro=f"CfdpTlv(TlvType({t}), bytes.fromhex('{v.hex()}'))  # see checks/c08.py check_generic_tlv")
 
     try:
         obj = L.CfdpTlv(L.TlvType(t), v)
-        got = bytes(obj.pack())
+        packed = obj.pack()
+        got = bytes(packed)
     except Exception as e:
+        keep.recheck(case)
         return bad("encode/CfdpTlv.pack/exception", _exc(e), ref)
+    keep.recheck(case)
+    keep.hold("CfdpTlv.__init__", obj, _obs_tlv, case)
+    keep.hold("CfdpTlv.pack", packed, bytes, case)
     if got != ref:
         return bad("encode/CfdpTlv.pack/octets", got, ref)
     if obj.packet_len != len(v) + 2:
@@ -189,6 +213,7 @@ def check_generic_tlv(rec: Rec, t: int, v: bytes, nontrivial=True):
             bad("decode/CfdpTlv.unpack/consumed-length", [label, u.packet_len], len(v) + 2)
         if bytes(u.pack()) != ref:
             bad("inverse/CfdpTlv.unpack-then-pack", [label, bytes(u.pack())], ref)
+        keep.hold("CfdpTlv.unpack", u, _obs_tlv, case)
     rec.outcome(f"tlv/t={t}/len={len(v)}/ok")
 
 
@@ -197,15 +222,21 @@ def check_generic_lv(rec: Rec, v: bytes, nontrivial=True):
     case = {"kind": "lv", "v": hx(v)}
     ref = R.lv(v)
     rec.case(nontrivial, ops=8)
+    keep = _keeper(rec)
 
     def bad(kind, observed, expected):
         rec.violation("C08." + kind, case, observed, expected, repro=f"CfdpLv(bytes.fromhex('{v.hex()}'))  # see checks/c08.py check_generic_lv")
 
     try:
         obj = L.CfdpLv(v)
-        got = bytes(obj.pack())
+        packed = obj.pack()
+        got = bytes(packed)
     except Exception as e:
+        keep.recheck(case)
         return bad("encode/CfdpLv.pack/exception", _exc(e), ref)
+    keep.recheck(case)
+    keep.hold("CfdpLv.__init__", obj, _obs_lv, case)
+    keep.hold("CfdpLv.pack", packed, bytes, case)
     if got != ref:
         return bad("encode/CfdpLv.pack/octets", got, ref)
     if obj.packet_len != len(v) + 1:
@@ -222,6 +253,7 @@ def check_generic_lv(rec: Rec, v: bytes, nontrivial=True):
             bad("decode/CfdpLv.unpack/consumed-length", [label, u.packet_len], len(v) + 1)
         if bytes(u.pack()) != ref:
             bad("inverse/CfdpLv.unpack-then-pack", [label, bytes(u.pack())], ref)
+        keep.hold("CfdpLv.unpack", u, _obs_lv, case)
     rec.outcome(f"lv/len={len(v)}/ok")
 
 
@@ -266,11 +298,21 @@ def check_concrete(rec: Rec, uname: str, recipe: dict, nontrivial=True):
 
     ref = u.ref(recipe)
     exp = u.expected(recipe)
+    keep = _keeper(rec)
+
+    def obs_conc(o):
+        return (u.observe(o), int(o.packet_len))
+
     try:
         obj = u.build(recipe)
-        got = bytes(obj.pack())
+        packed = obj.pack()
+        got = bytes(packed)
     except Exception as e:
+        keep.recheck(case)
         return bad(f"encode/{uname}.pack/exception", _exc(e), ref)
+    keep.recheck(case)
+    keep.hold(f"{uname}.__init__", obj, obs_conc, case)
+    keep.hold(f"{uname}.pack", packed, bytes, case)
     if got != ref:
         return bad(f"encode/{uname}.pack/octets", got, ref)
     _check_len(rec, case, uname, recipe, obj, len(ref), bad)
@@ -304,6 +346,8 @@ def check_concrete(rec: Rec, uname: str, recipe: dict, nontrivial=True):
             _check_len(rec, case, uname, recipe, d, len(ref), bad)
             if bytes(d.pack()) != ref:
                 bad(f"inverse/{dname}-then-pack", bytes(d.pack()), ref)
+            if d is not obj:
+                keep.hold(dname, d, obs_conc, case)
         except Exception as e:
             bad(f"decode/{dname}/exception-on-result", _exc(e), exp)
     rec.outcome(f"{uname}/len={len(ref)}/ok")
